@@ -76,6 +76,22 @@ func (d *dbound) lower0(v ssa.Value, at *ssa.BasicBlock, seen map[ssa.Value]bool
 	switch x := v.(type) {
 	case *ssa.Convert:
 		return d.lower(x.X, at, seen)
+	case *ssa.UnOp:
+		// a cell that is assigned once (a per-iteration copy, possibly read inside the spawned literal)
+		if x.Op == token.MUL {
+			var cell *ssa.Alloc
+			switch a := x.X.(type) {
+			case *ssa.Alloc:
+				cell = a
+			case *ssa.FreeVar:
+				cell, _ = core.FreeVarBinding(a).(*ssa.Alloc)
+			}
+			if cell != nil {
+				if sts := storesInto(cell); len(sts) == 1 {
+					return d.lower(sts[0].Val, sts[0].Block(), seen)
+				}
+			}
+		}
 	case *ssa.Phi:
 		lo := int64(1) << 60
 		for i, e := range x.Edges {
@@ -206,6 +222,16 @@ func (d *dbound) diff(v ssa.Value, seen map[ssa.Value]bool) int64 {
 		if d.startCell != nil && x.X == ssa.Value(d.startCell) {
 			return 0
 		}
+		if fv, isFV := x.X.(*ssa.FreeVar); isFV {
+			if cell, isCell := core.FreeVarBinding(fv).(*ssa.Alloc); isCell {
+				if d.startCell != nil && cell == d.startCell {
+					return 0
+				}
+				if sts := storesInto(cell); len(sts) == 1 && cell != d.endCell {
+					return d.diff(sts[0].Val, seen)
+				}
+			}
+		}
 		if d.endCell != nil && x.X == ssa.Value(d.endCell) {
 			// the stores of this iteration that can reach the load
 			lo := int64(1) << 60
@@ -319,6 +345,12 @@ func RuleI1(c *Ctx) {
 		sc, sv := resolve(work.Call.Args[0])
 		ec, ev := resolve(work.Call.Args[1])
 		_ = mc
+		if ec == nil && ev == nil {
+			// an expression computed inside the literal from captured per-iteration values (work(start, start+size))
+			if _, isBin := work.Call.Args[1].(*ssa.BinOp); isBin {
+				ev = work.Call.Args[1]
+			}
+		}
 		if (sc == nil && sv == nil) || (ec == nil && ev == nil) {
 			c.Und("I1", key, work.Pos(), "cannot trace the arguments of work back to values of Execute")
 			continue
